@@ -95,6 +95,23 @@ def exprOK (d : Nat) (D : List SLoc) : Expr → Bool
   | .bin _ a b => exprOK d D a && exprOK d D b
   | .tbl e => exprOK d D e
 
+/-- union of the possibly-synced sets of two branches (without repeating what they share) -/
+def mergeW (Wt We : List SLoc) : List SLoc := Wt ++ We.filter fun x => !Wt.contains x
+
+theorem mem_mergeW_left (Wt We : List SLoc) (x : SLoc) (h : x ∈ Wt) : x ∈ mergeW Wt We := List.mem_append_left _ h
+
+theorem mem_mergeW_right (Wt We : List SLoc) (x : SLoc) (h : x ∈ We) : x ∈ mergeW Wt We := by
+  unfold mergeW
+  by_cases hx : x ∈ Wt
+  · exact List.mem_append_left _ hx
+  · exact List.mem_append_right _ (List.mem_filter.2 ⟨h, by simpa using hx⟩)
+
+theorem mem_mergeW (Wt We : List SLoc) (x : SLoc) (h : x ∈ mergeW Wt We) : x ∈ Wt ∨ x ∈ We := by
+  unfold mergeW at h
+  rcases List.mem_append.1 h with h | h
+  · exact Or.inl h
+  · exact Or.inr (List.mem_filter.1 h).1
+
 /-- `wf d st D W = some (D', W')`: at stack depth `d`, with `D` the locations whose value is fixed (synced earlier on
 every path) and `W` those possibly synced so far, `st` reads only fixed locations in its conditions and counts and
 syncs no location twice; `D'`, `W'` are the sets afterwards. -/
@@ -107,7 +124,7 @@ def wf (d : Nat) : Stmt → List SLoc → List SLoc → Option (List SLoc × Lis
   | .ite c t e, D, W =>
     if exprOK d D c then
       match wf d t D W, wf d e D W with
-      | some (_, Wt), some (_, We) => some (D, Wt ++ We)
+      | some (_, Wt), some (_, We) => some (D, mergeW Wt We)
       | _, _ => none
     else none
   | .rep n body, D, W =>
@@ -205,9 +222,9 @@ theorem wf_static (d : Nat) (st : Stmt) : ∀ (D W D' W' : List SLoc), wf d st D
         obtain ⟨rfl, rfl⟩ := h
         obtain ⟨t1, _, _, t4⟩ := iht d D W Dt Wt ht
         obtain ⟨e1, _, _, e4⟩ := ihe d D W De We he
-        refine ⟨fun x h => List.mem_append_left _ (t1 x h), fun x h => h, fun x h => Or.inl h, ?_⟩
+        refine ⟨fun x h => mem_mergeW_left _ _ _ (t1 x h), fun x h => h, fun x h => Or.inl h, ?_⟩
         intro x hx
-        rcases List.mem_append.1 hx with hx | hx
+        rcases mem_mergeW _ _ _ hx with hx | hx
         · exact t4 x hx
         · exact e4 x hx
       · cases h
@@ -457,7 +474,7 @@ theorem all_good (ver : Nat → Nat) (st : Stmt) : ∀ d, Good ver st d := by
         by_cases hcv : c.eval ver s0 stk ≠ 0
         · rw [if_pos hcv] at hrd
           obtain ⟨tf, tx, tb⟩ := iht d D W Dt Wt stk s0 inp s1 rest ht hd hDW hdep hb hrd
-          have hsub : ∀ x ∈ Wt, x ∈ Wt ++ We := fun x h => List.mem_append_left _ h
+          have hsub : ∀ x ∈ Wt, x ∈ mergeW Wt We := fun x h => mem_mergeW_left _ _ _ h
           refine ⟨?_, ?_, tb⟩
           · intro l hl
             exact tf l (fun ⟨hu, hn⟩ => hl ⟨under_mono Wt _ d stk l hsub hu, hn⟩)
@@ -476,7 +493,7 @@ theorem all_good (ver : Nat → Nat) (st : Stmt) : ∀ d, Good ver st d := by
             · exact Or.inr ⟨under_mono Wt _ d stk l hsub h.1, h.2⟩
         · rw [if_neg hcv] at hrd
           obtain ⟨ef, ex, eb⟩ := ihe d D W De We stk s0 inp s1 rest he hd hDW hdep hb hrd
-          have hsub : ∀ x ∈ We, x ∈ Wt ++ We := fun x h => List.mem_append_right _ h
+          have hsub : ∀ x ∈ We, x ∈ mergeW Wt We := fun x h => mem_mergeW_right _ _ _ h
           refine ⟨?_, ?_, eb⟩
           · intro l hl
             exact ef l (fun ⟨hu, hn⟩ => hl ⟨under_mono We _ d stk l hsub hu, hn⟩)
@@ -705,8 +722,8 @@ theorem all_good' (ver : Nat → Nat) (st : Stmt) : ∀ d, Good' ver st d := by
         by_cases hcv : c.eval ver s stk ≠ 0
         · rw [if_pos hcv] at hin
           obtain ⟨s1, hr, _, hfr⟩ := iht d D W Dt Wt stk s s0 rest ht hd hDW hdep hs0 hin
-          have hsub : ∀ x ∈ Wt, x ∈ Wt ++ We := fun x h => List.mem_append_left _ h
-          have hfr' : ∀ l, ¬ (under (Wt ++ We) d stk l ∧ (l.1, l.2.length) ∉ W) → s1 l = s0 l :=
+          have hsub : ∀ x ∈ Wt, x ∈ mergeW Wt We := fun x h => mem_mergeW_left _ _ _ h
+          have hfr' : ∀ l, ¬ (under (mergeW Wt We) d stk l ∧ (l.1, l.2.length) ∉ W) → s1 l = s0 l :=
             fun l hl => hfr l (fun ⟨hu, hn⟩ => hl ⟨under_mono Wt _ d stk l hsub hu, hn⟩)
           refine ⟨s1, ?_, ?_, hfr'⟩
           · simp only [rd, wr]
@@ -717,8 +734,8 @@ theorem all_good' (ver : Nat → Nat) (st : Stmt) : ∀ d, Good' ver st d := by
             exact hs0 l hl
         · rw [if_neg hcv] at hin
           obtain ⟨s1, hr, _, hfr⟩ := ihe d D W De We stk s s0 rest he hd hDW hdep hs0 hin
-          have hsub : ∀ x ∈ We, x ∈ Wt ++ We := fun x h => List.mem_append_right _ h
-          have hfr' : ∀ l, ¬ (under (Wt ++ We) d stk l ∧ (l.1, l.2.length) ∉ W) → s1 l = s0 l :=
+          have hsub : ∀ x ∈ We, x ∈ mergeW Wt We := fun x h => mem_mergeW_right _ _ _ h
+          have hfr' : ∀ l, ¬ (under (mergeW Wt We) d stk l ∧ (l.1, l.2.length) ∉ W) → s1 l = s0 l :=
             fun l hl => hfr l (fun ⟨hu, hn⟩ => hl ⟨under_mono We _ d stk l hsub hu, hn⟩)
           refine ⟨s1, ?_, ?_, hfr'⟩
           · simp only [rd, wr]
